@@ -30,6 +30,7 @@ REGISTRY = {
     "S05": ("checks.extra_checks", "s05"),
     "S06": ("checks.extra_checks", "s06"),
     "S07": ("checks.extra_checks", "s07"),
+    "S08": ("checks.extra_checks", "s08"),
     "C04": ("checks.arith_checks", "c04"),
     "C05": ("checks.arith_checks", "c05"),
     "C12": ("checks.controlb_checks", "c12"),
